@@ -54,6 +54,7 @@ template<class T> requires __big<T>::v struct vector<T> : __bigflat<T, __cap<T>:
   T& operator[](size_t i) { __CPROVER_assert(i < (size_t)n, "ministl: vector index out of range (UB)"); return __at((long)i); }
   const T& operator[](size_t i) const { __CPROVER_assert(i < (size_t)n, "ministl: vector index out of range (UB)"); return __at((long)i); }
   size_t size() const { return n; } bool empty() const { return n == 0; }
+  void reserve(size_t k) { __CPROVER_assert(k <= (size_t)VCAP, "ministl: vector capacity (model bound)"); } size_t capacity() const { return VCAP; }
   iterator begin() { return iterator(this, 0); } iterator end() { return iterator(this, n); }
   const_iterator begin() const { return const_iterator(this, 0); } const_iterator end() const { return const_iterator(this, n); }
   // erase / insert of one element: the element objects stay where they are, their contents move (constant indices only)
@@ -82,6 +83,19 @@ template<> struct __aform<Theo::ParseError> { static constexpr bool v = true; };
 template<> struct __aform<unsigned int> { static constexpr bool v = true; };
 template<class F2, class E2> E2 __itget(const __iter<F2, E2>& f, long k) { return f.c->__get(f.i + k); }
 template<class T> const T& __itget(const T* f, long k) { return f[k]; }
+// std::make_move_iterator over these vectors, WITH the moved-from state of the source: reading element k through a move iterator hands out
+// the element and then leaves the source element in the state its (implicit) move constructor leaves it in under libstdc++: every
+// std::string member empty, scalar members unchanged.  Token (the only element type moved in macro.cpp) has the string members text and
+// file.  This is what makes "a slot used twice in a body yields empty tokens the second time" visible; the generic model in ministl
+// (a move is a copy) cannot show it.  Reads happen once per element (insert(at, first, last) reads position k exactly once).
+template<class F, class E> struct __move_iter { __iter<F, E> base; long operator-(const __move_iter& o) const { return base - o.base; } };
+template<class T> void __moved_from(T& x) { if constexpr (requires { x.text = string(); x.file = string(); }) { x.text = string(); x.file = string(); } }
+template<class F, class E> requires (!__is_const(F) && requires(F& f) { f.__get(0); f.u.d[0]; }) __move_iter<F, E> make_move_iterator(__iter<F, E> i) { return {i}; }
+template<class F, class E> E __itget(const __move_iter<F, E>& f, long k) {
+  long at = f.base.i + k; E r = f.base.c->u.d[0];
+  for (int j = 0; j < F::FCAP; j++) if (j == at) { r = f.base.c->u.d[j]; __moved_from(f.base.c->u.d[j]); }
+  return r;
+}
 template<class T> requires __aform<T>::v struct vector<T> : __flat<T, __cap<T>::v> {
   static constexpr int VCAP = __cap<T>::v;
   typedef __flat<T, VCAP> F;
@@ -99,6 +113,7 @@ template<class T> requires __aform<T>::v struct vector<T> : __flat<T, __cap<T>::
   T& operator[](size_t i) { __CPROVER_assert(i < (size_t)n, "ministl: vector index out of range (UB)"); return __at((long)i); }
   const T& operator[](size_t i) const { __CPROVER_assert(i < (size_t)n, "ministl: vector index out of range (UB)"); return __at((long)i); }
   size_t size() const { return n; } bool empty() const { return n == 0; }
+  void reserve(size_t k) { __CPROVER_assert(k <= (size_t)VCAP, "ministl: vector capacity (model bound)"); } size_t capacity() const { return VCAP; }
   iterator begin() { return iterator(this, 0); } iterator end() { return iterator(this, n); }
   const_iterator begin() const { return const_iterator(this, 0); } const_iterator end() const { return const_iterator(this, n); }
   // insert [f,l) before at: shift the tail up by m (highest index first, reading positions not yet overwritten), then copy the new elements in
